@@ -369,6 +369,11 @@ add(
       stubs=["opaque: parse_float - its arguments are what is asserted (what it returns for them is decided by the s_float_* runs)",
              "what follows the literal is one fixed 25-byte tail (the scanner only looks at its length)"],
       args=["number_check.py", "--jobs", "8", "--timeout-ms", "60000", "--shapes", "quick"], cost=130, timeout=850),
+    H("s_parse_number_shapes_native", "smt", ["C07", "C17"], ["sonic_number::parse_number", "parse_number_fraction", "parse_exponent", "arch::x86_64::simd_str2int (the SSE 16-digit reader of target-cpu=native builds, with the intrinsic models)", "POW10_UINT"],
+      "the 1764 literal shapes of s_parse_number_shapes on the MIR compiled with the x86 target features (avx2, pclmulqdq, sse4.1, ssse3): same assertions, so the scanner's result does not depend on the backend; every value of every digit",
+      stubs=["opaque: parse_float - its arguments are what is asserted", "models: x86 intrinsics lane-wise (smt/mir2smt.py SIMD table)",
+             "what follows the literal is one fixed 25-byte tail (the scanner only looks at its length)"],
+      args=["number_check.py", "--native", "--jobs", "8", "--timeout-ms", "60000", "--shapes", "quick"], cost=130, timeout=850),
     H("s_parse_number_shapes_all", "smt", ["C07", "C02", "C08"], ["sonic_number::parse_number", "parse_number_fraction", "parse_exponent", "arch::fallback::simd_str2int (scalar 16-digit reader)", "POW10_UINT"],
       "every shape with sign x integer part (0, or 1..=22 digits) x 0..=22 fraction digits x {no exponent, e/E x sign/no sign x 1..=3 digits} x {end of input, more input}, plus the malformed ones (dot or exponent marker without a digit); every value of every digit",
       stubs=["opaque: parse_float - its arguments are what is asserted (what it returns for them is decided by the s_float_* runs)",
